@@ -62,6 +62,27 @@ func worldKey(seed uint64, class string, i int) [32]byte {
 	return r.Seed32()
 }
 
+var collideOnce sync.Once
+var collideA, collideB *Key
+
+// collidingKeys returns two fixed, different Ed25519 keys under different names whose note key IDs
+// (first four bytes of SHA-256(name "\n" alg key)) collide; found once per process by a birthday search over names.
+func collidingKeys() (*Key, *Key) {
+	collideOnce.Do(func() {
+		sa, sb := worldKey(0xc011de, "collide", 0), worldKey(0xc011de, "collide", 1)
+		seen := map[uint32]int{}
+		for i := 0; collideA == nil; i++ {
+			ka := NewKey(fmt.Sprintf("logkey0-%d", i), sa)
+			seen[ka.KeyHash(algEd25519)] = i
+			kb := NewKey(fmt.Sprintf("logkey1-%d", i), sb)
+			if j, ok := seen[kb.KeyHash(algEd25519)]; ok {
+				collideA, collideB = NewKey(fmt.Sprintf("logkey0-%d", j), sa), kb
+			}
+		}
+	})
+	return collideA, collideB
+}
+
 func NewWorld(p *Plan) *World {
 	w := &World{Seed: p.Seed, Dense: p.Cfg.Dense, Signed: map[int]map[string]*SignedCP{}}
 	nk := 0
@@ -72,6 +93,11 @@ func NewWorld(p *Plan) *World {
 	}
 	for i := 0; i < nk; i++ {
 		w.Keys = append(w.Keys, NewKey(fmt.Sprintf("logkey%d", i), worldKey(p.Seed, "log", i)))
+	}
+	if p.Cfg.Extra["collide"] != 0 && nk >= 2 {
+		// two different keys whose 32-bit note key IDs are equal (the ID is a lookup hint, not an identity): a legal configuration
+		a, b := collidingKeys()
+		w.Keys[0], w.Keys[1] = a, b
 	}
 	w.Stranger = NewKey("stranger", worldKey(p.Seed, "stranger", 0))
 	for i, lc := range p.Cfg.Logs {
